@@ -31,8 +31,13 @@ func (e *Enc) buildQuery(o *Obligation, withModel bool) string {
 	b.WriteString(prelude)
 	b.WriteString("(declare-const gstr.empty Str)\n(assert (= (gstr.len gstr.empty) 0))\n")
 	b.WriteString("(define-fun zeroTimeAbs () Int (- 62135596800000000000))\n")
-	b.WriteString("(assert (forall ((s Str)) (! (>= (gstr.len s) 0) :pattern ((gstr.len s)))))\n")
-	b.WriteString("(assert (forall ((s Str) (i Int)) (! (and (<= 0 (gstr.at s i)) (<= (gstr.at s i) 255)) :pattern ((gstr.at s i)))))\n")
+	b.WriteString("(assert (forall ((s Str)) (! (>= (gstr.len s) 0) :pattern ((gstr.len s))))) ;;bg\n")
+	b.WriteString("(assert (forall ((s Str) (i Int)) (! (and (<= 0 (gstr.at s i)) (<= (gstr.at s i) 255)) :pattern ((gstr.at s i))))) ;;bg\n")
+	// Go string equality is content equality: gstr.eq, defined by length and bytes (skolemised difference index)
+	b.WriteString("(declare-fun gstr.eq (Str Str) Bool)\n(declare-fun gstr.diff (Str Str) Int)\n")
+	b.WriteString("(assert (forall ((s Str) (t Str)) (! (=> (gstr.eq s t) (and (= (gstr.len s) (gstr.len t)) (forall ((i Int)) (! (=> (and (<= 0 i) (< i (gstr.len s))) (= (gstr.at s i) (gstr.at t i))) :pattern ((gstr.at s i)) :pattern ((gstr.at t i)))))) :pattern ((gstr.eq s t)))))\n")
+	b.WriteString("(assert (forall ((s Str) (t Str)) (! (=> (not (gstr.eq s t)) (or (not (= (gstr.len s) (gstr.len t))) (and (<= 0 (gstr.diff s t)) (< (gstr.diff s t) (gstr.len s)) (not (= (gstr.at s (gstr.diff s t)) (gstr.at t (gstr.diff s t))))))) :pattern ((gstr.eq s t)))))\n")
+	b.WriteString("(assert (forall ((s Str) (t Str)) (! (=> (= s t) (gstr.eq s t)) :pattern ((gstr.eq s t)))))\n")
 	if e.rootSpec != nil && e.rootSpec.Options["strext"] != "" {
 		b.WriteString("(assert (forall ((s Str) (t Str)) (! (=> (and (= (gstr.len s) (gstr.len t)) (forall ((i Int)) (=> (and (<= 0 i) (< i (gstr.len s))) (= (gstr.at s i) (gstr.at t i))))) (= s t)) :pattern ((gstr.len s) (gstr.len t)))))\n")
 	}
@@ -51,7 +56,10 @@ func (e *Enc) buildQuery(o *Obligation, withModel bool) string {
 	for _, d := range e.axiomAsserts {
 		b.WriteString(d + "\n")
 	}
-	for _, l := range e.out[:o.nOut] {
+	for i, l := range e.out[:o.nOut] {
+		if t := e.outTag[i]; t != 0 && o.allowed != nil && !o.allowed[t] {
+			continue
+		}
 		b.WriteString(l + "\n")
 	}
 	if o.Guard != "" && o.Guard != "true" {
@@ -178,8 +186,27 @@ func solveAll(jobs []job, dir string, secs, par int) {
 					}
 				}
 			}
+			if r.result != "unsat" && !j.o.Cover {
+				// stage 2: drop the background axioms (global axioms, memory range facts) but keep contract hypotheses
+				if qs, changed := stripBackground(q); changed {
+					s1 := 5
+					if secs < s1 {
+						s1 = secs
+					}
+					r = solve(qs, dir, fmt.Sprintf("%04d_%s.nobg", idx, j.o.Name), s1, "")
+					if r.result == "unsat" {
+						r.backend += "(nobg)"
+					} else {
+						r.result = ""
+					}
+				}
+			}
 			if r.result != "unsat" {
-				r = solve(q, dir, fmt.Sprintf("%04d_%s", idx, j.o.Name), secs, "")
+				s2 := secs
+				if j.o.Cover && s2 > 3 {
+					s2 = 3 // covers only guard against vacuity: `unsat` is the only answer that matters
+				}
+				r = solve(q, dir, fmt.Sprintf("%04d_%s", idx, j.o.Name), s2, "")
 			}
 			j.o.Result, j.o.Backend, j.o.Secs, j.o.Output = r.result, r.backend, r.secs, r.output
 			if r.result == "sat" {
@@ -298,6 +325,23 @@ func stripQuantified(q string) (string, bool) {
 	var out []string
 	for i, l := range lines {
 		if i != goalIdx && strings.HasPrefix(l, "(assert") && (strings.Contains(l, "(forall ") || strings.Contains(l, "(exists ")) {
+			changed = true
+			continue
+		}
+		if strings.HasPrefix(l, "(get-value") {
+			continue
+		}
+		out = append(out, l)
+	}
+	return strings.Join(out, "\n"), changed
+}
+
+func stripBackground(q string) (string, bool) {
+	lines := strings.Split(q, "\n")
+	changed := false
+	var out []string
+	for _, l := range lines {
+		if strings.HasSuffix(l, ";;bg") {
 			changed = true
 			continue
 		}
